@@ -501,9 +501,9 @@ class Engine:
             sv0.export_audio()
             # what that pipeline's reader produced (falls back to what its
             # source served when the reader is not called through read())
-            res["other_served"] = (b"".join(res["other_prod"])
-                                   if res.get("other_prod")
-                                   else src0.served_bytes())
+            res["other_served"] = b"".join(res.get("other_prod") or [])
+            if not res["other_served"] and src0.served_bytes():
+                res["other_served"] = None   # reader bypassed: not judged
 
         def main():
             if sc.get("prior_session"):
@@ -715,8 +715,13 @@ class Engine:
             raise RuntimeError("main did not complete but no failure")
         src = res["src"]
         served = src.served_bytes()
-        rprod = res.get("rprod") or [(c_, q_) for c_, q_ in
-                                     zip(src.served, src.served_seq)]
+        rprod = res.get("rprod") or []
+        if not rprod and any(b for b in (res.get("tok_seen") or [])
+                             if b is not None):
+            # the tokenizer did receive audio but reader.read was never
+            # called through the instance: the reader is bypassed, fall
+            # back to what the raw source handed out
+            rprod = [(c_, q_) for c_, q_ in zip(src.served, src.served_seq)]
         produced = b"".join(c_ for c_, _ in rprod)
         max_read = sc["max_read"]
         max_samples = None if max_read is None else round(max_read * sr)
